@@ -1,5 +1,38 @@
 /-
-Source tie (DESIGN §14) for C13 — serialised dependencies round-trip through HTML text.
+Source tie (DESIGN §14) for C13 — serialised dependencies round-trip through HTML text.  The Lean functions regenerated
+from the text of
+
+  HTMLTextDocument._static_extract_serialized_html_deps, ._extract_serialized_html_deps, .__init__, .render,
+  TagList.render, HTMLDependency.serialize_to_script_json                       (htmltools/_core.py; harness/pytr_c13.py)
+
+compute what the model computes (`scan` / `tdDedupKeepFirst` / `recover` / `extract` / `textDocInit` / `textDocRender` /
+`serNode`; Model/TextDoc.lean, Model/Json.lean).
+
+What is stated through a primitive *defined from the model's own function* (Py/PrimC13.lean; checked against the running
+interpreter by the `srcc13 … prim_*` lines of every run, and by the scan / JSON theorems of Props/C13.lean): the two `re`
+calls on the one extraction pattern (`scan`), `json.loads` (`jsonParse`), `json.dumps` (`jsonPrint`).  What is tied here is
+the code around them.
+
+  * extraction (`src_static_extractC13`, all texts, no hypothesis): bodies and remaining text from the two `re` calls, the
+    `seen_deps` loop = keep the first occurrence of every distinct body, in order (`tdDedupKeepFirst`), each kept body
+    rebuilt by `HTMLDependency(**json.loads(body))` (`rebuildC13`: the keyword call binds the dict to the signature of the
+    *translated* `HTMLDependency.__init__`), first failure decides, answer `(text, deps)`.
+  * one body (`src_rebuild_*C13`): a serialised body gives back the dependency — through `src_init` (Props/SrcC10b.lean), i.e.
+    through the source text of the constructor —; a text that is not JSON raises ValueError, JSON that is not an object
+    TypeError.  The model's `depOfJson` is a model of the constructor *on records* (it keeps the version text as written
+    and types the fields); on JSON objects that are not records (a `name` that is not a string, a version `packaging` refuses
+    or normalises, items that are not dicts …) the Python constructor and `depOfJson` differ, and no theorem is stated.
+  * `src_static_extract_modelC13` / `src_extract_roundtripC13`: = `extract`, for texts whose bodies are of the kinds above; in
+    particular for every interleaving of text chunks (without the OPEN marker) and serialised copies of well-formed
+    dependencies — `C13_extract_spec` said about the source text.
+  * `_extract_serialized_html_deps`, `__init__` (`src_extractC13`, `src_textdoc_initC13`, `…_modelC13` = `textDocInit`).
+  * `render` (`src_textdoc_renderC13` = `textDocRender`): see the theorem.  `HTMLDependency.as_html_tags` and `Tag.__init__`
+    are not translated (`pyAsHtmlTagsC13`: a recorded parameter; `pyMkTagC13`: stated semantics on the shapes used).
+  * `serialize_to_script_json` (`src_serializeC13` = `serNode`).
+
+Dependencies are compared attribute by attribute (`projDepC10b`, `normDocC13`): the order of the assignments in the two
+constructors is not part of any statement.  No loop body is spelled out: the `seen_deps` loop and the two comprehensions
+are taken from the regenerated definitions by unification (`extract_loop_kC13`, `collect_loop_kC13`).
 -/
 import HtmlVerif.Generated.Src
 import HtmlVerif.Lemmas.SrcC13
@@ -10,7 +43,7 @@ import HtmlVerif.Props.SrcC10
 import HtmlVerif.Props.SrcC14
 import HtmlVerif.Props.SrcRender
 import HtmlVerif.Props.C09
-import HtmlVerif.Props.SrcNeutralise
+import HtmlVerif.Lemmas.SrcC08
 
 set_option linter.unusedVariables false
 set_option linter.unusedSimpArgs false
@@ -434,6 +467,13 @@ theorem src_textdoc_render_objC13 (h : HTMLTextDocument_render_available = true)
     asTags _ _ ph (fun d _ => rfl) (fun d _ => ⟨_, rfl, rfl⟩) (fun d _ => ?_) hplain fuel hf
   cases lp <;> cases iv <;> simp [pyAsHtmlTagsC13, embDepTagsC13, fieldGet?, lookupTagsC13, sameArgC13, optStrC13]
 
+/-- `text.replace("</", "<\\/")` = `neutralise text` (Props/SrcNeutralise.lean `src_neutralise`, restated here so that this file does
+    not depend on that file's `_now` obligation about the operands in the source) -/
+theorem neutraliseC13 (s : Str) :
+    pyReplaceAll (.str s) (.str ['<', '/']) (.str ['<', '\\', '/']) = .ok (.str (neutralise s)) := by
+  simp only [pyReplaceAll, List.isEmpty_cons, Bool.false_eq_true, if_false, pure_eq_ok, neutralise]
+  rw [replaceGo_neut_len s.length s (Nat.le_refl _)]
+
 /-- `TagList(x)` for a TagList `x` of nodes: a TagList with the same nodes (through the translated `TagList.__init__`) -/
 theorem init_taglist1C13 (hi : TagList_init_available = true) (htc : tagchilds_to_tagnodes_available = true)
     (hfl : util_flatten_available = true) (hfr : util_flatten_recurse_available = true) (hitn : is_tag_node_available = true)
@@ -504,7 +544,7 @@ theorem src_serializeC13 (h : HTMLDependency_serialize_available = true)
       intro hd
       have jd := jsonDumps_recordC13 info hd ind
       simp only [kName, kVersion, kSource, kScript, kStylesheet, kMeta, kAllFiles, kHead] at jd
-      have hn' := src_neutralise (jsonPrint ind (depToJson { info := info, head := hd }))
+      have hn' := neutraliseC13 (jsonPrint ind (depToJson { info := info, head := hd }))
       rw [jd]
       simp only [ok_bind]
       rw [show (PVal.str ['<', Char.ofNat 92, '/']) = PVal.str ['<', '\\', '/'] from rfl, hn']
